@@ -8,6 +8,7 @@ pub mod c03;
 pub mod c04;
 pub mod c05;
 pub mod c06;
+pub mod c07;
 pub mod c16;
 
 macro_rules! dispatch {
@@ -18,6 +19,7 @@ macro_rules! dispatch {
             "C04" => c04::$f($ctx $(, $arg)*),
             "C05" => c05::$f($ctx $(, $arg)*),
             "C06" => c06::$f($ctx $(, $arg)*),
+            "C07" => c07::$f($ctx $(, $arg)*),
             "C16" => c16::$f($ctx $(, $arg)*),
             other => {
                 let msg = format!("no monitor for property {}", other);
